@@ -67,9 +67,10 @@ type cnCfg struct {
 	ChainID       string `json:"chain_id"`
 	MaxValidators int    `json:"max_validators"`
 	MaxPerEntity  int    `json:"max_per_entity"`
-	ExtraNodes    int    `json:"extra_nodes"` // entity 0 runs this many additional validator nodes
-	TiedStake     bool   `json:"tied_stake"`  // every validator entity starts with the same escrow
-	VRF           bool   `json:"vrf"`         // VRF beacon backend (the production one) instead of the insecure test backend
+	ExtraNodes    int    `json:"extra_nodes"`  // entity 0 runs this many additional validator nodes
+	TiedStake     bool   `json:"tied_stake"`   // every validator entity starts with the same escrow
+	MinTransact   int64  `json:"min_transact"` // staking MinTransactBalance
+	VRF           bool   `json:"vrf"`          // VRF beacon backend (the production one) instead of the insecure test backend
 	VRFThreshold  uint64 `json:"vrf_threshold"`
 }
 
@@ -232,7 +233,7 @@ func (n *cnNet) buildGenesis() error {
 			},
 			MinDelegationAmount:               q(5),
 			MinTransferAmount:                 q(1),
-			MinTransactBalance:                q(0),
+			MinTransactBalance:                q(uint64(cfg.MinTransact)),
 			MaxAllowances:                     8,
 			FeeSplitWeightPropose:             q(2),
 			FeeSplitWeightVote:                q(1),
